@@ -165,49 +165,61 @@ def eval_tree(seq_py, seq_js, bare=None):
         want_rows[f] = [(f, ln, 1, L, SYMBOL[category(L)], n) for n, L, ln in risky]
     n_listed = sum(len(v) for v in want_rows.values())
     outcomes = []
+
+    def judge(paths, quiet, entry, nfiles):
+        overlap = len(paths) >= 2 and paths.count(Path("a.py")) + (1 if Path(".") in paths else 0) >= 2
+        sig = {"paths": "dir" if len(paths) == 1 else ("dir+file" if overlap else "files"), "quiet": quiet}
+        if entry:
+            # the command-line entry point (option handling, configuration file, logging set-up), not only the command function
+            import codelimit.__main__ as cli
+            sig["entry"] = "cli"
+            code, text, exc = harness.run_cli_function(cli.check, paths=list(paths), exclude=None, quiet=quiet, verbose=False)
+        else:
+            code, text, exc = harness.run_cli_function(check_command, list(paths), quiet)
+        if exc is not None:
+            out.append(("check-raised", dict(sig, error=type(exc).__name__), repr(exc)))
+            return
+        outcomes.append(code)
+        if code != want_exit:
+            out.append(("exit-status-wrong", sig, f"exit {code}, expected {want_exit} for lengths {all_lengths}"))
+        rows, summary, junk = parse_check_output(text)
+        if quiet and n_listed == 0:
+            if text.strip():
+                out.append(("quiet-not-silent", sig, f"--quiet printed {text!r} although nothing is over 30"))
+            return
+        # lines that are neither a listing row nor the summary (junk) are not judged: the property is about the rows,
+        # the summary count and --quiet silence; a reformatted row shows up as a missing row below
+        got = {f: [r for r in rows if r[0] == f] for f in want_rows}
+        extra = [r for r in rows if r[0] not in want_rows]
+        if extra:
+            out.append(("listing-wrong", dict(sig, what="unknown-file"), repr(extra[:3])))
+        if overlap:
+            # a.py is reached twice: it is listed once per visit, and the summary counts what is listed
+            n_rows = len(rows)
+            if sorted(set(got["a.py"])) != sorted(set(want_rows["a.py"])) or sorted(set(got["b.js"])) != sorted(set(want_rows["b.js"])):
+                out.append(("listing-wrong", dict(sig, what="set-or-fields"), f"listed {got}, expected every function over 30 of {want_rows}"))
+            if summary is None or summary[1] != n_rows or summary[0] != 3 or len(got["a.py"]) != 2 * len(want_rows["a.py"]):
+                out.append(("summary-count-wrong", sig, f"summary {summary} but {n_rows} functions are listed over 3 file visits"))
+            return
+        for f in want_rows:
+            if got[f] != want_rows[f]:
+                what = "order" if sorted(got[f]) == sorted(want_rows[f]) else "set-or-fields"
+                out.append(("listing-wrong", dict(sig, what=what), f"{f}: listed {got[f]}, expected {want_rows[f]}"))
+        if summary is None:
+            out.append(("summary-missing", sig, text[-300:]))
+        else:
+            nf, nfun, happy = summary
+            if nf != nfiles:
+                out.append(("summary-file-count-wrong", sig, f"{nf} files checked, expected {nfiles}"))
+            if (n_listed == 0) != happy or nfun != n_listed:
+                out.append(("summary-count-wrong", sig, f"summary says {nfun} (happy={happy}), listed/expected {n_listed}"))
+
     with harness.temp_tree(files) as root, harness.cwd(root):
         for paths in ([Path(".")], [Path("a.py"), Path("b.js")], [Path("."), Path("a.py")], [Path("a.py"), Path("b.js"), Path("a.py")]):
-            overlap = len(paths) >= 2 and paths.count(Path("a.py")) + (1 if Path(".") in paths else 0) >= 2
             for quiet in (False, True):
-                sig = {"paths": "dir" if len(paths) == 1 else ("dir+file" if overlap else "files"), "quiet": quiet}
-                code, text, exc = harness.run_cli_function(check_command, list(paths), quiet)
-                if exc is not None:
-                    out.append(("check-raised", dict(sig, error=type(exc).__name__), repr(exc)))
-                    continue
-                outcomes.append(code)
-                if code != want_exit:
-                    out.append(("exit-status-wrong", sig, f"exit {code}, expected {want_exit} for lengths {all_lengths}"))
-                rows, summary, junk = parse_check_output(text)
-                if quiet and n_listed == 0:
-                    if text.strip():
-                        out.append(("quiet-not-silent", sig, f"--quiet printed {text!r} although nothing is over 30"))
-                    continue
-                # lines that are neither a listing row nor the summary (junk) are not judged: the property is about the rows,
-                # the summary count and --quiet silence; a reformatted row shows up as a missing row below
-                got = {f: [r for r in rows if r[0] == f] for f in want_rows}
-                extra = [r for r in rows if r[0] not in want_rows]
-                if extra:
-                    out.append(("listing-wrong", dict(sig, what="unknown-file"), repr(extra[:3])))
-                if overlap:
-                    # a.py is reached twice: it is listed once per visit, and the summary counts what is listed
-                    n_rows = len(rows)
-                    if sorted(set(got["a.py"])) != sorted(set(want_rows["a.py"])) or sorted(set(got["b.js"])) != sorted(set(want_rows["b.js"])):
-                        out.append(("listing-wrong", dict(sig, what="set-or-fields"), f"listed {got}, expected every function over 30 of {want_rows}"))
-                    if summary is None or summary[1] != n_rows or summary[0] != 3 or len(got["a.py"]) != 2 * len(want_rows["a.py"]):
-                        out.append(("summary-count-wrong", sig, f"summary {summary} but {n_rows} functions are listed over 3 file visits"))
-                    continue
-                for f in want_rows:
-                    if got[f] != want_rows[f]:
-                        what = "order" if sorted(got[f]) == sorted(want_rows[f]) else "set-or-fields"
-                        out.append(("listing-wrong", dict(sig, what=what), f"{f}: listed {got[f]}, expected {want_rows[f]}"))
-                if summary is None:
-                    out.append(("summary-missing", sig, text[-300:]))
-                else:
-                    nfiles, nfun, happy = summary
-                    if nfiles != 2:
-                        out.append(("summary-file-count-wrong", sig, f"{nfiles} files checked, expected 2"))
-                    if (n_listed == 0) != happy or nfun != n_listed:
-                        out.append(("summary-count-wrong", sig, f"summary says {nfun} (happy={happy}), listed/expected {n_listed}"))
+                judge(paths, quiet, False, 2)
+        for quiet in (False, True):
+            judge([Path(".")], quiet, True, 2)
         # the same tree through scan: LOC-weighted profile and counters
         harness.reset_globals()
         cb = scan_path(Path(root))
@@ -224,6 +236,14 @@ def eval_tree(seq_py, seq_js, bare=None):
             got = (t.files, t.loc, t.functions, t.hard_to_maintain, t.unmaintainable) if t else None
             if got != want:
                 out.append(("scan-counters-wrong", {"language": lang}, f"{lang}: {got}, expected {want}"))
+        # a third, short file that is not valid UTF-8 (read through the Latin-1 fallback): same verdict, same listing, same silence
+        (Path(root) / "l.py").write_bytes(("# caf\xe9\n" + harness.py_function("latin_fn", 5)).encode("latin-1"))
+        for quiet in (False, True):
+            for entry in (False, True):
+                before = len(out)
+                judge([Path(".")], quiet, entry, 3)
+                for i in range(before, len(out)):
+                    out[i] = (out[i][0], dict(out[i][1], with_non_utf8_file=True), out[i][2])
     return (want_exit, n_listed), out
 
 
@@ -279,7 +299,7 @@ def _block(block, agg):
             case = {"part": "b", "py": list(seq_py), "js": list(seq_js), "bare": bare}
             oc, viol = eval_tree(seq_py, seq_js, bare)
             agg.case(case, oc[1] > 0, oc, sample=False)
-            agg.transitions += 5
+            agg.transitions += 15
             for k, sig, d in viol:
                 agg.violation(k, dict(sig, bare=bare), case, d)
         return
@@ -294,7 +314,7 @@ def _block(block, agg):
             case = {"part": "b", "py": list(seq_py), "js": list(seq_js)}
             oc, viol = eval_tree(seq_py, seq_js)
             agg.case(case, oc[1] > 0, oc, sample=oc[1] >= 2)
-            agg.transitions += 5
+            agg.transitions += 15
             for k, sig, d in viol:
                 agg.violation(k, sig, case, d)
 
